@@ -2,8 +2,8 @@ package main
 
 import (
 	"fmt"
-	"go/constant"
 	"go/ast"
+	"go/constant"
 	"go/token"
 	"go/types"
 	"sort"
